@@ -206,7 +206,7 @@ class Ctx:
             self.cov["trusted_base"].append("Print Assumptions: every property theorem of this check is closed under the global context (no axioms)")
         return n_ok == len(prop_files)
 
-    def build_model(self, fam, extract_v, main_ml, modname):
+    def build_model(self, fam, extract_v, main_ml, modname, extra_ml=()):
         """Extract coq/<extract_v> (ExtrOcamlBasic) into .work/extract/<fam>/ and link with ocaml/<main_ml>."""
         d = os.path.join(WORK, "extract", fam)
         os.makedirs(d, exist_ok=True)
@@ -223,7 +223,7 @@ class Ctx:
                 self.broken.append({"kind": "correspondence", "name": "model " + fam,
                                     "detail": "model does not compile:\n" + log[-3000:]})
                 return None
-            srcs = [ev, mm] + [os.path.join(COQ, x) for x in deps]
+            srcs = [ev, mm] + [os.path.join(COQ, x) for x in deps] + [os.path.join(ROOT, "ocaml", x) for x in extra_ml]
             if os.path.exists(exe) and all(os.path.getmtime(s) <= os.path.getmtime(exe) for s in srcs if os.path.exists(s)):
                 return exe
             rc, out = sh(["coqc", "-Q", COQ, "SE", "-w", "-notation-overridden,-extraction-opaque-accessed,-extraction-reserved-identifier", "-o", os.path.join(d, "Extract.vo"), ev], cwd=d, timeout=900)
@@ -231,7 +231,9 @@ class Ctx:
                 self.broken.append({"kind": "correspondence", "name": "extract " + fam, "detail": out[-3000:]})
                 return None
             sh(["cp", mm, os.path.join(d, "main.ml")])
-            rc, out = sh(["ocamlfind", "ocamlopt", "-O3", "-w", "-a", modname + ".mli", modname + ".ml", "main.ml", "-o", "model.tmp"], cwd=d, timeout=900)
+            for x in extra_ml:
+                sh(["cp", os.path.join(ROOT, "ocaml", x), os.path.join(d, x)])
+            rc, out = sh(["ocamlfind", "ocamlopt", "-O3", "-w", "-a", modname + ".mli", modname + ".ml"] + list(extra_ml) + ["main.ml", "-o", "model.tmp"], cwd=d, timeout=900)
             if rc != 0:
                 self.broken.append({"kind": "correspondence", "name": "ocaml " + fam, "detail": out[-3000:]})
                 return None
